@@ -374,6 +374,7 @@ fn exec_items(inv: &Inv, k: usize, rot: usize) -> Vec<PushProgram> {
 }
 
 fn check_instr_case(d: &mut Driver, r: &mut Report, spec: &StateSpec, p: &PushProgram, sample: bool) {
+    let wf = spec.wf();
     let mut ptoks = Vec::new();
     prog_tokens(p, &mut ptoks);
     let req = format!("push perform {} | {}", spec.request_body(), ptoks.join(" "));
@@ -389,16 +390,17 @@ fn check_instr_case(d: &mut Driver, r: &mut Report, spec: &StateSpec, p: &PushPr
     r.hit(&format!("instr {iname} {kind}"));
     if sample { r.sample(json!({"request": req, "real": real})); }
     let unbound = ptoks.first().map(|t| t == "V:unbound").unwrap_or(false);
-    if !unchanged {
+    if !unchanged && wf {
         r.violate(json!({"prop": "C02", "case": req, "real": real, "what": "the state carried by the error differs from the state before the instruction"}));
     }
+    if !wf { r.hit("over-full state (Impl correspondence only)"); }
     if real == "panic" && !unbound {
         r.violate(json!({"prop": "C03", "case": req, "real": real, "what": "perform panicked although every mentioned input variable is bound"}));
     }
     if real != model {
         r.disagree(json!({"case": req, "real": real, "impl": model}));
     }
-    if !unbound && mask_payload(&real) != mask_payload(&spec_s) {
+    if wf && !unbound && mask_payload(&real) != mask_payload(&spec_s) {
         r.violate(json!({"prop": "C01", "case": req, "real": real, "spec": spec_s, "what": "outcome, stacks or output differ from what the instruction semantics (signature table / action tables) prescribe"}));
     }
 }
@@ -470,6 +472,34 @@ pub fn run_instr(cfg: &Cfg) -> Report {
         check_instr_case(d, r, &spec, p, idx % 9973 == 0);
     });
     rep.merge(sweep);
+    // phase 3: over-full states (reachable only through Stack::set_max_stack_size on a loaded stack): outside the
+    // hypotheses of the theorems, but the code-shaped Impl model describes the Rust's partial updates there too
+    // (discard-then-push, pop2-then-push-push); only the correspondence with the Impl is checked
+    let per3: u64 = 3 * 3 * 3 * 3 * 4;
+    let total3 = per3 * cat.len() as u64;
+    let over = run_sharded(&cfg.driver, cfg.threads, total3, || Report::new("push-instr", RULE_INSTR), |d, r, idx| {
+        let ii = (idx / per3) as usize;
+        let mut j = idx % per3;
+        let p = &cat[ii];
+        let ni = 1 + (j % 3) as usize; j /= 3;
+        let nf = 1 + (j % 3) as usize; j /= 3;
+        let nb = 1 + (j % 3) as usize; j /= 3;
+        let ne = (j % 3) as usize; j /= 3;
+        // which stack is over-full (by 1 or 2)
+        let which = j % 4;
+        let lim = |n: usize, me: bool| -> usize { if me { n.saturating_sub(1 + (ii % 2)) } else { n + 2 } };
+        let spec = StateSpec {
+            max_steps: 10,
+            exec_max: lim(ne, which == 0), int_max: lim(ni, which == 1), float_max: lim(nf, which == 2), bool_max: lim(nb, which == 3),
+            exec: exec_items(&inv, ne, ii),
+            ints: (0..ni).map(|k| INTS[(ii + k * 3) % INTS.len()]).collect(),
+            floats: (0..nf).map(|k| fl[(ii + k * 5) % fl.len()]).collect(),
+            bools: (0..nb).map(|k| (ii + k) % 2 == 0).collect(),
+            inputs: vec![("x".into(), LitV::I(7)), ("y".into(), LitV::F(2.5)), ("z".into(), LitV::B(true))],
+        };
+        check_instr_case(d, r, &spec, p, false);
+    });
+    rep.merge(over);
     // inventory: every instruction of the crates must exist in the model and vice versa
     let mut d = Driver::spawn(&cfg.driver);
     let mut model_names: Vec<String> = d.ask("push inventory").split(' ').map(|s| s.to_string()).collect();
